@@ -31,6 +31,7 @@ var templates = []string{
 	"resize_not_chunked", "resize_not_resizable", "resize_wrong_rank", "resize_beyond_max", "resize_zero",
 	"attr_nil", "attr_empty_slice", "attr_int", "attr_bool", "attr_struct", "attr_int8_slice", "attr_huge_string", "delattr_absent",
 	"group_attr_nil", "group_33rd_child", "group_name_heap_full",
+	"write_wrong_len_opaque", "write_wrong_len_opaque", "hard_dup_to_link_object", "hard_dup_to_link_object", "delattr_absent_second_handle", "delattr_absent_second_handle",
 }
 
 type Op struct {
@@ -63,6 +64,12 @@ func setup() []hist.Op {
 		{K: "write", Path: "/v0", Seed: 11}, {K: "write", Path: "/v3", Seed: 12}, {K: "write", Path: "/v6", Seed: 13},
 		{K: "write", Path: "/c", Seed: 1, Mode: hist.ModeSeq}, {K: "write", Path: "/r", Seed: 2, Mode: hist.ModeSeq},
 		{K: "write", Path: "/k", Seed: 3, Mode: hist.ModeSeq}, {K: "write", Path: "/g/in", Seed: 4, Mode: hist.ModeSeq},
+		// a contiguous opaque dataset, a soft and an external link, each followed directly by another allocation
+		{K: "dataset", Path: "/o", D: &hist.DSpec{Type: "opaque", OpaqueLen: 4, OpaqueTag: "raw", Dims: []uint64{3}}}, {K: "write", Path: "/o", Seed: 5},
+		{K: "soft", Path: "/s", Target: "/c"},
+		{K: "dataset", Path: "/after_s", D: &hist.DSpec{Type: "i32", Dims: []uint64{4}}}, {K: "write", Path: "/after_s", Seed: 6, Mode: hist.ModeSeq},
+		{K: "ext", Path: "/e", File: "other.h5", Target: "/x"},
+		{K: "group", Path: "/after_e"},
 	}
 }
 
@@ -255,6 +262,19 @@ func bad(ex *hist.Exec, tmpl string, tgt int) (err error, applicable bool) {
 			return h.Write([]int32{1, 2, 3, 4, 5}), true
 		}
 		return nil, false
+	case "write_wrong_len_opaque":
+		if h := ds("/o"); h != nil {
+			n := 12 + []int{1, 4, 8, 64, 300, -1, -4, -11}[((tgt%8)+8)%8]
+			buf := make([]byte, n)
+			for i := range buf {
+				buf[i] = 0x11
+			}
+			return h.Write(buf), true
+		}
+		return nil, false
+	case "hard_dup_to_link_object":
+		// the new name exists already; the target is the object a soft / external link is stored as
+		return fw.CreateHardLink(objPaths[tgt%len(objPaths)], []string{"/s", "/e"}[((tgt%2)+2)%2]), true
 	case "vlen_too_many", "vlen_too_few", "vlen_wrong_type":
 		vp := fmt.Sprintf("/v%d", ((tgt%7)+7)%7)
 		h := ds(vp)
@@ -344,6 +364,11 @@ func bad(ex *hist.Exec, tmpl string, tgt int) (err error, applicable bool) {
 			v = strings.Repeat("H", 70000)
 		}
 		return h.WriteAttribute("badattr", v), true
+	case "delattr_absent_second_handle":
+		if h := second[tp]; h != nil {
+			return h.DeleteAttribute("never_written_attribute"), true
+		}
+		return nil, false
 	case "delattr_absent":
 		if h := ds(tp); h != nil {
 			return h.DeleteAttribute("never_written_attribute"), true
@@ -362,7 +387,12 @@ func bad(ex *hist.Exec, tmpl string, tgt int) (err error, applicable bool) {
 	return err, true
 }
 
+// second: a second handle per dataset, opened right after the last reopen and not used for anything that succeeds (its
+// view of the object header is as old as that)
+var second = map[string]*hdf5.DatasetWriter{}
+
 func run(c Case) vt.Verdict {
+	second = map[string]*hdf5.DatasetWriter{}
 	file := filepath.Join(vt.GetEnv().Scratch, fmt.Sprintf("c16-%d.h5", os.Getpid()))
 	defer os.Remove(file)
 	ex, err := hist.NewExec(file, c.SB)
@@ -383,6 +413,14 @@ func run(c Case) vt.Verdict {
 			st := ex.Apply(*op.H)
 			if st.Broken != "" {
 				return vt.Bad("op %d %s %s (valid op after %d earlier ops): %s", i, op.H.K, op.H.Path, i, st.Broken)
+			}
+			if op.H.K == "reopen" && st.Err == "" {
+				second = map[string]*hdf5.DatasetWriter{}
+				for _, p := range []string{"/c", "/r", "/k", "/g/in"} {
+					if h, err := ex.FW.OpenDataset(p); err == nil {
+						second[p] = h
+					}
+				}
 			}
 		case op.Bad == "group_33rd_child" || op.Bad == "group_name_heap_full":
 			// fill /h with valid children until the library refuses; every accepted one enters the model,
@@ -502,6 +540,9 @@ func run(c Case) vt.Verdict {
 	for _, p := range ps {
 		if p.Kind == "attr-value-unsigned" {
 			continue
+		}
+		if p.Kind == "link-as-object" || p.Kind == "link-invisible" {
+			continue // how the reader presents soft / external links is C03's open finding, present with or without refused calls
 		}
 		if (p.Kind == "child-extra" || p.Kind == "group-extra") && strings.Contains(p.String(), "bad22") {
 			v := vt.KnownOr(kfGroupWithLinks, "%s", p)
